@@ -113,4 +113,14 @@ def typesToList : Types → List HType
   | .nil => []
   | .cons t r => t :: typesToList r
 
+/-! ## `NDArrayMatMul`: the rank of the product (`TNDArray.matMulNDims`, used by `InferType`) -/
+
+/-- vector · vector is a scalar (rank 0), a vector on one side drops the contracted axis of the other operand, otherwise the
+(equal, after broadcasting by the front end) rank of the left operand -/
+def matMulNDims : Nat → Nat → Nat
+  | 1, 1 => 0
+  | 1, n => n - 1
+  | n, 1 => n - 1
+  | l, _ => l
+
 end HailVerif.FnRegistry
